@@ -30,7 +30,7 @@ def run(c: Check):
     c.tlc_mc("RateLimit", "RateLimit_sanity.cfg", expect_violation="ExactWindow",
              name="sanity: ring forgotten when its map entry expires")
     if th:
-        c.tlc_mc("RateLimit", "RateLimit_mc_big.cfg", timeout=2400, name="L=3, I=3, Per<I, horizon 11, 8 events")
+        c.tlc_mc("RateLimit", "RateLimit_mc_big.cfg", timeout=2400, name="L=3, I=3, Per<I, horizon 10, 7 events")
     behs = c.tlc_sim("RateLimit", "RateLimit_sim.cfg", num=300 if th else 50, depth=70 if th else 50)
     inp = os.path.join(c.scratch, "c09_behs.json")
     json.dump([[{"a": s["a"], "d": s["d"], "s": s["s"], "kind": s["kind"], "extra": s["extra"]} for s in b] for b in behs],
